@@ -57,6 +57,524 @@ Proof.
   all: repeat match goal with E : th_pc _ = _ |- _ => rewrite E in * end.
   all: cbn in *; try discriminate; try congruence.
   all: try (specialize (Ghl eq_refl); congruence).
-  all: try (split; [constructor; cbn; assumption|reflexivity]).
+  all: try (split; [constructor; cbn; first [assumption|reflexivity]|reflexivity]).
   all: try (destruct (negb (existsb (fun th => is_create (th_cmd th)) (threads st))); discriminate).
+  all: try (exfalso;
+            assert (is_create (th_cmd t0) = true) as Hc by (rewrite E2; reflexivity);
+            assert (idle t0 = false) as Hi by (unfold idle; rewrite E0; reflexivity);
+            destruct (g_creating _ G _ Hin Hc Hi) as (_ & Hd & _); congruence).
+Qed.
+
+Definition failing (th : thread) : Prop := th_pc th = TCalled \/ th_pc th = TRet false.
+
+(* in a terminated state, a thread that has not yet selected the controller can
+   only fail *)
+Lemma late_step : forall st a st' evs th',
+  ginv st -> dead st -> step st a = Some (st', evs) ->
+  In th' (threads st') -> th_cmd th' <> CShutdown ->
+  (forall x, In x (threads st) -> th_id x = th_id th' -> failing x) -> failing th'.
+Proof.
+  intros st a st' evs th' G D H Hin Hns Hold.
+  destruct (dead_loop _ G D) as [Hl Hk]. destruct D as [Dd Dp Ds Dc].
+  destruct a; unfold_steps H; try rewrite Hl in H; try rewrite Dd in H; try rewrite Dp in H;
+    try rewrite Ds in H; try rewrite Dc in H; crunch; cbn in Hin.
+  all: try (apply Hold; [assumption|reflexivity]).
+  all: try (destruct Hin as [<-|Hin]; [left; reflexivity|apply Hold; [assumption|reflexivity]]).
+  all: try (apply in_remove_thread in Hin; apply Hold; [tauto|reflexivity]).
+  all: try (rewrite E in Hin; destruct Hin).
+  all: match goal with
+       | Hf : find_thread _ _ = Some ?x |- _ =>
+         let Hx := fresh "Hx" in let Hid := fresh "Hid" in
+         destruct (find_thread_in _ _ _ Hf) as [Hx Hid];
+         apply in_set_thread in Hin; destruct Hin as (y & Hy & [[Hne ->]|[He ->]]);
+         [apply Hold; [assumption|reflexivity]|];
+         assert (y = x) as -> by (eapply nodup_ids_unique; eauto using g_nodup; congruence);
+         pose proof (Hold x Hx eq_refl) as Hf0; unfold failing in Hf0
+       end.
+  all: repeat match goal with E : th_pc _ = _ |- _ => rewrite E in * end.
+  all: try (destruct Hf0; discriminate).
+  all: cbn in *; try congruence.
+  all: try (right; reflexivity).
+Qed.
+
+(* a Terminate that reaches "done, nil" in this step leaves the terminated state *)
+Lemma term_completion : forall st a st' evs th',
+  ginv st -> step st a = Some (st', evs) ->
+  In th' (threads st') -> th_cmd th' = CTerminate -> th_pc th' = TRet true ->
+  In th' (threads st) \/ (dead st' /\ arch_file st' = None).
+Proof.
+  intros st a st' evs th' G H Hin Hc Hpc.
+  destruct a; unfold_steps H; crunch; cbn in Hin.
+  all: try (left; assumption).
+  all: try (destruct Hin as [<-|Hin]; [cbn in Hpc; discriminate|left; assumption]).
+  all: try (apply in_remove_thread in Hin; left; tauto).
+  all: try (destruct (loop_step_frame _ _ _ _ _ H) as [F _]; rewrite (fr_threads _ _ F) in Hin; left; assumption).
+  all: try (rewrite E in Hin; destruct Hin).
+  all: match goal with
+       | Hf : find_thread _ _ = Some ?x |- _ =>
+         let Hx := fresh "Hx" in let Hid := fresh "Hid" in
+         destruct (find_thread_in _ _ _ Hf) as [Hx Hid];
+         apply in_set_thread in Hin; destruct Hin as (y & Hy & [[Hne ->]|[He ->]]);
+         [left; assumption|];
+         assert (y = x) as -> by (eapply nodup_ids_unique; eauto using g_nodup; congruence);
+         pose proof (g_pc _ G _ Hx) as Gpc;
+         cbn in Hc, Hpc
+       end.
+  all: try discriminate.
+  all: repeat match goal with E : th_pc _ = _ |- _ => rewrite E in Gpc end.
+  all: rewrite Hc in *; cbn in *; try discriminate; try congruence.
+  all: try (destruct wait; discriminate).
+  all: try (destruct aok, ok; discriminate).
+  all: right.
+  all: assert (created st = true) as Gcd by (apply (g_created _ G); intro Em; rewrite Em in Hx; destruct Hx).
+  all: split; [constructor; cbn; first [assumption|reflexivity]|reflexivity].
+Qed.
+
+(* once terminated with no Reset under way, the archive file stays absent *)
+Lemma arch_stable : forall st a st' evs,
+  ginv st -> dead st -> no_active_reset st -> arch_file st = None -> step st a = Some (st', evs) ->
+  arch_file st' = None /\ no_active_reset st' /\ forallb arch_event evs = true.
+Proof.
+  intros st a st' evs G D Hnar Ha H.
+  destruct (dead_loop _ G D) as [Hl Hk]. destruct D as [Dd Dp Ds Dc].
+  destruct a; unfold_steps H; try rewrite Hl in H; try rewrite Dd in H; try rewrite Dp in H;
+    try rewrite Ds in H; try rewrite Dc in H; crunch.
+  all: match goal with
+       | Hf : find_thread _ _ = Some ?x |- _ =>
+         let Hx := fresh "Hx" in let Hid := fresh "Hid" in
+         destruct (find_thread_in _ _ _ Hf) as [Hx Hid];
+         pose proof (g_pc _ G _ Hx) as Gpc;
+         pose proof (holder_locked _ _ Hx) as Ghl; unfold holds_lock in Ghl;
+         pose proof (Hnar _ Hx) as Hnx; unfold idle in Hnx
+       | _ => idtac
+       end.
+  all: repeat match goal with E : th_pc _ = _ |- _ => rewrite E in * end.
+  all: repeat match goal with E : th_cmd _ = _ |- _ => rewrite E in * end.
+  all: cbn in *; try discriminate; try congruence.
+  all: try (specialize (Ghl eq_refl); congruence).
+  all: try (specialize (Hnx eq_refl); discriminate).
+  all: try (destruct (negb (existsb (fun th => is_create (th_cmd th)) (threads st))); discriminate).
+  all: split; [try assumption; try reflexivity|split; [|try reflexivity; try (rewrite Ha; reflexivity)]].
+  all: try (intros y Hy Hr; cbn in Hy; destruct Hy as [<-|Hy]; [reflexivity|apply Hnar; assumption]).
+  all: try (intros y Hy Hr; cbn in Hy; apply in_remove_thread in Hy; apply Hnar; tauto).
+  all: try (intros y Hy Hr; cbn in Hy; apply in_set_thread in Hy; destruct Hy as (x & Hx' & [[Hne ->]|[He ->]]);
+            [apply Hnar; assumption|reflexivity]).
+  all: try (intros y Hy Hr; apply Hnar; assumption).
+  all: try (exfalso;
+            assert (is_create (th_cmd t0) = true) as Hc by (rewrite E2; reflexivity);
+            assert (idle t0 = false) as Hi by (unfold idle; rewrite E0; reflexivity);
+            destruct (g_creating _ G _ Hx Hc Hi) as (_ & Hd & _); congruence).
+  intros y Hy Hr; cbn in Hy; apply in_set_thread in Hy; destruct Hy as (x & Hx' & [[Hne ->]|[He ->]]);
+    [apply Hnar; assumption|].
+  assert (x = t0) as -> by (eapply nodup_ids_unique; eauto using g_nodup).
+  cbn in Hr. rewrite E1 in Hr. discriminate.
+Qed.
+
+(* ------------------------------------------------------------------ *)
+(* the simulation relation *)
+
+Definition no_reset (st : cstate) : Prop :=
+  forall th, In th (threads st) -> is_reset (th_cmd th) = false.
+
+Lemma no_reset_active : forall st, no_reset st -> no_active_reset st.
+Proof. intros st H th Hin Hr. rewrite (H th Hin) in Hr. discriminate. Qed.
+
+Record trel (m : tmon) (st : cstate) : Prop := {
+  tr_ginv : ginv st;
+  tr_act : t_act m = keys (threads st);
+  tr_term : t_term m = true -> dead st;
+  tr_arch : t_term m = true -> t_arch_unknown m = false -> arch_file st = None /\ no_active_reset st;
+  tr_late : forall t, mem_tid t (t_late m) = true ->
+                      t_term m = true /\
+                      forall th, In th (threads st) -> th_id th = t -> failing th /\ th_cmd th <> CShutdown;
+  tr_late_bound : forall t, mem_tid t (t_late m) = true -> t < tid_bound st;
+  tr_tracked : forall t b, flag_of t (t_terms m) = Some b ->
+                           exists th, In th (threads st) /\ th_id th = t /\ th_cmd th = CTerminate;
+  tr_all : forall th, In th (threads st) -> th_cmd th = CTerminate ->
+                      exists b, flag_of (th_id th) (t_terms m) = Some b;
+  tr_done : forall t b, flag_of t (t_terms m) = Some b ->
+                        forall th, In th (threads st) -> th_id th = t -> th_pc th = TRet true ->
+                                   dead st /\ (b = false -> arch_file st = None);
+  tr_clean : forall t, flag_of t (t_terms m) = Some false -> no_reset st
+}.
+
+Lemma trel_init : forall md manual, trel tmon_init (init_state md manual).
+Proof.
+  intros. constructor; cbn; try (intros; discriminate).
+  - apply ginv_init.
+  - reflexivity.
+  - intros th [].
+Qed.
+
+Lemma tmon_other : forall m e,
+  is_call_ret e = false ->
+  (t_term m = true -> dead_event e = true /\ (t_arch_unknown m = false -> arch_event e = true)) ->
+  tmon_step false m e = Some m.
+Proof.
+  intros [a tm un ts lt] e Hcr Hq. cbn in Hq.
+  destruct tm.
+  - destruct (Hq eq_refl) as [Hd Ha]. unfold dead_event in Hd. apply andb_prop in Hd. destruct Hd as [He Ho].
+    apply negb_true_iff in He.
+    destruct e; cbn in *; try discriminate; try reflexivity.
+    + destruct clean; [|reflexivity]. destruct sess; [discriminate|reflexivity].
+    + destruct clean; [|reflexivity]. destruct arch; [|reflexivity].
+      destruct un; [reflexivity|]. specialize (Ha eq_refl). discriminate.
+    + destruct loaded; [discriminate|reflexivity].
+  - destruct e; cbn in *; try discriminate; try reflexivity.
+    + destruct clean; [|reflexivity]. destruct sess; reflexivity.
+    + destruct clean; [|reflexivity]. destruct arch; reflexivity.
+    + destruct loaded; reflexivity.
+Qed.
+
+Lemma tmon_run_other : forall evs m,
+  forallb (fun e => negb (is_call_ret e)) evs = true ->
+  (t_term m = true -> forallb dead_event evs = true /\ (t_arch_unknown m = false -> forallb arch_event evs = true)) ->
+  mon_run (tmon_step false) m evs = Some m.
+Proof.
+  induction evs as [|e r IH]; intros m Hcr Hq; [reflexivity|].
+  cbn in *. apply andb_prop in Hcr. destruct Hcr as [He Hr]. apply negb_true_iff in He.
+  rewrite tmon_other; [apply IH; [exact Hr|]|exact He|].
+  - intro Hm. destruct (Hq Hm) as [H1 H2]. apply andb_prop in H1. split; [apply H1|].
+    intro Hu. specialize (H2 Hu). apply andb_prop in H2. apply H2.
+  - intro Hm. destruct (Hq Hm) as [H1 H2]. apply andb_prop in H1. split; [apply H1|].
+    intro Hu. specialize (H2 Hu). apply andb_prop in H2. apply H2.
+Qed.
+
+Lemma trel_step_other : forall m st a st' evs,
+  trel m st -> step st a = Some (st', evs) ->
+  (forall t c, a <> ACall t c) -> (forall t, a <> AReturn t) ->
+  mon_run (tmon_step false) m evs = Some m /\ trel m st'.
+Proof.
+  intros m st a st' evs R H Hnc Hnr. destruct R as [G Hact Hterm Harch Hlate Hlb Htr Hall Hdone Hclean].
+  destruct (step_keys _ _ _ _ H Hnc Hnr) as [Hk Hev].
+  pose proof (ginv_step _ _ _ _ G H) as G'.
+  assert (Hk' : keys (threads st) = keys (threads st')) by (symmetry; exact Hk).
+  split.
+  - apply tmon_run_other; [exact Hev|]. intro Hm. pose proof (Hterm Hm) as D. split.
+    + exact (proj2 (dead_step _ _ _ _ G D H)).
+    + intro Hu. destruct (Harch Hm Hu) as [Ha Hn].
+      destruct (arch_stable _ _ _ _ G D Hn Ha H) as (_ & _ & X). exact X.
+  - constructor; try assumption.
+    + rewrite Hk. exact Hact.
+    + intro Hm. exact (proj1 (dead_step _ _ _ _ G (Hterm Hm) H)).
+    + intros Hm Hu. destruct (Harch Hm Hu) as [Ha Hn].
+      destruct (arch_stable _ _ _ _ G (Hterm Hm) Hn Ha H) as (A1 & A2 & _). auto.
+    + intros t Hl. destruct (Hlate t Hl) as [Hm Hth]. split; [exact Hm|].
+      intros th' Hin' Hid.
+      destruct (keys_transfer _ _ _ Hk Hin') as (x & Hx & Hxid & Hxc).
+      assert (th_cmd th' <> CShutdown) as Hns.
+      { rewrite <- Hxc. apply (Hth x Hx). congruence. }
+      split; [|exact Hns].
+      apply (late_step _ _ _ _ th' G (Hterm Hm) H Hin' Hns).
+      intros y Hy Hyid. apply (Hth y Hy). congruence.
+    + intros t Hl. rewrite (step_bound _ _ _ _ H Hnc). apply Hlb. exact Hl.
+    + intros t b Hf. destruct (Htr t b Hf) as (th & Hin & Hid & Hc).
+      destruct (keys_transfer _ _ _ Hk' Hin) as (x & Hx & Hxid & Hxc). exists x. repeat split; congruence.
+    + intros th' Hin' Hc. destruct (keys_transfer _ _ _ Hk Hin') as (x & Hx & Hxid & Hxc).
+      rewrite <- Hxid. apply Hall; congruence.
+    + intros t b Hf th' Hin' Hid Hpc.
+      assert (th_cmd th' = CTerminate) as Hc.
+      { destruct (keys_transfer _ _ _ Hk Hin') as (x & Hx & Hxid & Hxc).
+        destruct (Htr t b Hf) as (th0 & Hin0 & Hid0 & Hc0).
+        assert (x = th0) by (apply (nodup_ids_unique (threads st)); [apply (g_nodup _ G)|exact Hx|exact Hin0|congruence]). subst x. congruence. }
+      destruct (term_completion _ _ _ _ _ G H Hin' Hc Hpc) as [Hold|[D A]].
+      * destruct (Hdone t b Hf th' Hold Hid Hpc) as [D Ha]. split; [exact (proj1 (dead_step _ _ _ _ G D H))|].
+        intro Hb. subst b.
+        destruct (arch_stable _ _ _ _ G D (no_reset_active _ (Hclean t Hf)) (Ha eq_refl) H) as (X & _). exact X.
+      * split; [exact D|intros _; exact A].
+    + intros t Hf th' Hin'. destruct (keys_transfer _ _ _ Hk Hin') as (x & Hx & Hxid & Hxc).
+      rewrite <- Hxc. apply (Hclean t Hf). exact Hx.
+Qed.
+
+Lemma flag_of_dirty_some : forall t f b, flag_of t (set_all_dirty f) = Some b -> exists b', flag_of t f = Some b'.
+Proof.
+  intros t f. induction f as [|[t' b0] r IH]; cbn; intros b H; [discriminate|].
+  destruct (Nat.eqb t' t); [eauto|eapply IH; eassumption].
+Qed.
+
+Lemma flag_of_dirty_keep : forall t f b, flag_of t f = Some b -> exists b', flag_of t (set_all_dirty f) = Some b'.
+Proof.
+  intros t f. induction f as [|[t' b0] r IH]; cbn; intros b H; [discriminate|].
+  destruct (Nat.eqb t' t); [eauto|eapply IH; eassumption].
+Qed.
+
+Lemma flag_of_dirty : forall t f, flag_of t (set_all_dirty f) <> Some false.
+Proof.
+  intros t f. induction f as [|[t' b] r IH]; cbn; [discriminate|].
+  destruct (Nat.eqb t' t); [discriminate|exact IH].
+Qed.
+
+Lemma flag_of_remove : forall t t0 f b,
+  flag_of t0 (flag_remove t f) = Some b -> t0 <> t /\ flag_of t0 f = Some b.
+Proof.
+  intros t t0 f. induction f as [|[t' b0] r IH]; cbn; intros b H; [discriminate|].
+  destruct (Nat.eqb t' t) eqn:E1; cbn in H.
+  - apply IH in H. destruct H as [Hne H]. split; [exact Hne|].
+    apply Nat.eqb_eq in E1. subst t'. destruct (Nat.eqb t t0) eqn:E2; [apply Nat.eqb_eq in E2; congruence|exact H].
+  - destruct (Nat.eqb t' t0) eqn:E2.
+    + apply Nat.eqb_eq in E2. subst t'. split; [|exact H]. intro E. subst t0. rewrite Nat.eqb_refl in E1. discriminate.
+    + apply IH. exact H.
+Qed.
+
+Lemma flag_of_remove_other : forall t t0 f b,
+  t0 <> t -> flag_of t0 f = Some b -> flag_of t0 (flag_remove t f) = Some b.
+Proof.
+  intros t t0 f. induction f as [|[t' b0] r IH]; cbn; intros b Hne H; [discriminate|].
+  destruct (Nat.eqb t' t0) eqn:E2.
+  - apply Nat.eqb_eq in E2. subst t'. inv H.
+    assert (Nat.eqb t0 t = false) as -> by (apply Nat.eqb_neq; exact Hne). cbn. rewrite Nat.eqb_refl. reflexivity.
+  - destruct (Nat.eqb t' t); cbn; [apply IH; assumption|]. rewrite E2. apply IH; assumption.
+Qed.
+
+Lemma any_active_reset_false : forall ths,
+  any_active is_reset (keys ths) = false -> forall th, In th ths -> is_reset (th_cmd th) = false.
+Proof.
+  intros ths H th Hin. unfold any_active in H.
+  pose proof (existsb_false_forall _ _ _ H (th_id th, th_cmd th)) as Hx. cbn in Hx. apply Hx.
+  unfold keys. apply in_map_iff. eauto.
+Qed.
+
+(* the flags after a call record *)
+Definition terms_after_call (m : tmon) (t : tid) (c : cmd) : flags :=
+  let terms1 := if is_reset c then set_all_dirty (t_terms m) else t_terms m in
+  if is_terminate c then (t, any_active is_reset (t_act m)) :: terms1 else terms1.
+
+Lemma terms_after_call_inv : forall m t c t0 b,
+  (forall b0, flag_of t (t_terms m) <> Some b0) ->
+  flag_of t0 (terms_after_call m t c) = Some b ->
+  (t0 = t /\ c = CTerminate /\ b = any_active is_reset (t_act m))
+  \/ (t0 <> t /\ exists b', flag_of t0 (t_terms m) = Some b' /\ (b = false -> b' = false /\ is_reset c = false)).
+Proof.
+  intros m t c t0 b Hnottr Hf. unfold terms_after_call in Hf.
+  destruct (is_terminate c) eqn:Et.
+  - cbn in Hf. destruct (Nat.eqb t t0) eqn:E.
+    + apply Nat.eqb_eq in E. subst t0. inv Hf. left. destruct c; try discriminate. auto.
+    + apply Nat.eqb_neq in E. right. split; [congruence|].
+      destruct (is_reset c) eqn:Er; [destruct c; discriminate|]. exists b. auto.
+  - destruct (is_reset c) eqn:Er.
+    + assert (t0 <> t) as Hne.
+      { intro E. subst t0. apply flag_of_dirty_some in Hf. destruct Hf as (b' & Hf). eapply Hnottr; eassumption. }
+      right. split; [exact Hne|]. destruct (flag_of_dirty_some _ _ _ Hf) as (b' & Hb'). exists b'. split; [exact Hb'|].
+      intro Hb. subst b. exfalso. eapply flag_of_dirty. exact Hf.
+    + assert (t0 <> t) as Hne by (intro E; subst t0; eapply Hnottr; eassumption).
+      right. split; [exact Hne|]. exists b. auto.
+Qed.
+
+Lemma terms_after_call_keep : forall m t c t0 b,
+  t0 <> t -> flag_of t0 (t_terms m) = Some b -> exists b', flag_of t0 (terms_after_call m t c) = Some b'.
+Proof.
+  intros m t c t0 b Hne Hf. unfold terms_after_call.
+  assert (exists b', flag_of t0 (if is_reset c then set_all_dirty (t_terms m) else t_terms m) = Some b') as (b' & H1).
+  { destruct (is_reset c); [eapply flag_of_dirty_keep; eassumption|eauto]. }
+  destruct (is_terminate c); [|eauto]. cbn.
+  assert (Nat.eqb t t0 = false) as -> by (apply Nat.eqb_neq; congruence). eauto.
+Qed.
+
+Lemma trel_step_call : forall m st t c st' evs,
+  trel m st -> step st (ACall t c) = Some (st', evs) ->
+  exists m', mon_run (tmon_step false) m evs = Some m' /\ trel m' st'.
+Proof.
+  intros m st t c st' evs R H. destruct R as [G Hact Hterm Harch Hlate Hlb Htr Hall Hdone Hclean].
+  pose proof (ginv_step _ _ _ _ G H) as G'.
+  destruct (step_call _ _ _ _ _ H) as (-> & Hths & Hcr & Hbound & Hbound').
+  assert (Hkeys : keys (threads st') = (t, c) :: keys (threads st)) by (rewrite Hths; reflexivity).
+  assert (Hnotin : forall th, In th (threads st) -> th_id th <> t).
+  { intros th Hin E. pose proof (proj1 (Forall_forall _ _) (g_bound _ G) _ Hin) as Hb. cbn in Hb. lia. }
+  assert (Hnottr : forall b, flag_of t (t_terms m) <> Some b).
+  { intros b Hf. destruct (Htr t b Hf) as (th & Hin & Hid & _). eapply Hnotin; eassumption. }
+  assert (Hnotlate : mem_tid t (t_late m) = false).
+  { destruct (mem_tid t (t_late m)) eqn:E; [|reflexivity]. pose proof (Hlb t E). lia. }
+  exists {| t_act := (t, c) :: t_act m; t_term := t_term m; t_arch_unknown := t_arch_unknown m;
+            t_terms := terms_after_call m t c;
+            t_late := if t_term m then match c with CShutdown => t_late m | _ => t :: t_late m end else t_late m |}.
+  split; [reflexivity|].
+  assert (Hdead' : dead st -> dead st') by (intro D; exact (proj1 (dead_step _ _ _ _ G D H))).
+  assert (Hsub : forall th, In th (threads st) -> In th (threads st')) by (intros; rewrite Hths; right; assumption).
+  constructor; cbn.
+  - exact G'.
+  - rewrite Hact, Hkeys. reflexivity.
+  - intro Hm. apply Hdead'. apply Hterm. exact Hm.
+  - intros Hm Hu. destruct (Harch Hm Hu) as [Ha Hn].
+    destruct (arch_stable _ _ _ _ G (Hterm Hm) Hn Ha H) as (A1 & A2 & _). auto.
+  - intros t0 Hl. destruct (t_term m) eqn:Etm; [|destruct (Hlate t0 Hl) as [Hm _]; discriminate].
+    split; [reflexivity|]. intros th Hin Hid. rewrite Hths in Hin.
+    assert (Hcreated : created st = true) by (apply (d_created _ (Hterm eq_refl))).
+    assert (Hnc : is_create c = false) by (rewrite Hcreated in Hcr; destruct (is_create c); [discriminate|reflexivity]).
+    destruct Hin as [<-|Hin].
+    + cbn in Hid. subst t0. cbn. rewrite Hnc. split; [left; reflexivity|].
+      destruct c; try discriminate. change (mem_tid t (t_late m) = true) in Hl. congruence.
+    + assert (mem_tid t0 (t_late m) = true) as Hl0.
+      { destruct c; try exact Hl; cbn in Hl; apply orb_prop in Hl; destruct Hl as [Hl|Hl]; try exact Hl;
+          apply Nat.eqb_eq in Hl; subst t0; exfalso; eapply Hnotin; eassumption. }
+      destruct (Hlate t0 Hl0) as [_ Hth]. apply Hth; assumption.
+  - intros t0 Hl. rewrite Hbound'.
+    assert (mem_tid t0 (t_late m) = true \/ t0 = t) as [Hl0|E0]; [|(pose proof (Hlb t0 Hl0); lia)|subst t0; lia].
+    { destruct (t_term m); [|left; exact Hl].
+      destruct c; try (left; exact Hl); cbn in Hl; apply orb_prop in Hl; destruct Hl as [Hl|Hl]; try (left; exact Hl);
+        apply Nat.eqb_eq in Hl; right; exact Hl. }
+  - intros t0 b Hf. destruct (terms_after_call_inv _ _ _ _ _ Hnottr Hf) as [(-> & -> & _)|(Hne & b' & Hb' & _)].
+    + eexists. split; [rewrite Hths; left; reflexivity|]. cbn. auto.
+    + destruct (Htr t0 b' Hb') as (th & Hin & Hid & Hc). exists th. auto.
+  - intros th Hin Hc. rewrite Hths in Hin. destruct Hin as [<-|Hin].
+    + cbn in Hc. subst c. cbn. unfold terms_after_call. cbn. rewrite Nat.eqb_refl. eauto.
+    + destruct (Hall th Hin Hc) as (b & Hb). eapply terms_after_call_keep; [|exact Hb]. eapply Hnotin; eassumption.
+  - intros t0 b Hf th Hin Hid Hpc. rewrite Hths in Hin. destruct Hin as [<-|Hin].
+    + cbn in Hpc. destruct (is_create c); discriminate.
+    + destruct (terms_after_call_inv _ _ _ _ _ Hnottr Hf) as [(-> & _)|(Hne & b' & Hb' & Hclean')].
+      * exfalso. eapply Hnotin; eassumption.
+      * destruct (Hdone t0 b' Hb' th Hin Hid Hpc) as [D Ha]. split; [apply Hdead'; exact D|].
+        intro Hb. destruct (Hclean' Hb) as [-> _].
+        destruct (arch_stable _ _ _ _ G D (no_reset_active _ (Hclean t0 Hb')) (Ha eq_refl) H) as (X & _). exact X.
+  - intros t0 Hf th Hin. rewrite Hths in Hin.
+    destruct (terms_after_call_inv _ _ _ _ _ Hnottr Hf) as [(-> & -> & Hb)|(Hne & b' & Hb' & Hclean')].
+    + destruct Hin as [<-|Hin]; [reflexivity|]. symmetry in Hb. rewrite Hact in Hb.
+      eapply any_active_reset_false; eassumption.
+    + destruct (Hclean' eq_refl) as [-> Hr]. destruct Hin as [<-|Hin]; [exact Hr|]. apply (Hclean t0 Hb'). exact Hin.
+Qed.
+
+Lemma trel_step_return : forall m st t st' evs,
+  trel m st -> step st (AReturn t) = Some (st', evs) ->
+  exists m', mon_run (tmon_step false) m evs = Some m' /\ trel m' st'.
+Proof.
+  intros m st t st' evs R H. destruct R as [G Hact Hterm Harch Hlate Hlb Htr Hall Hdone Hclean].
+  pose proof (ginv_step _ _ _ _ G H) as G'.
+  destruct (step_return _ _ _ _ H) as (th & ok & Hf & Hpc & Hths & ->).
+  destruct (find_thread_in _ _ _ Hf) as [Hin Hid].
+  assert (Hkeys : keys (threads st') = act_remove t (keys (threads st))) by (rewrite Hths; apply keys_remove_thread).
+  assert (Hsub : forall x, In x (threads st') -> In x (threads st)).
+  { intros x Hx. rewrite Hths in Hx. apply in_remove_thread in Hx. tauto. }
+  assert (Hkeep : forall x, In x (threads st) -> th_id x <> t -> In x (threads st')).
+  { intros x Hx Hne. rewrite Hths. apply in_remove_thread. auto. }
+  assert (Hdead' : dead st -> dead st') by (intro D; exact (proj1 (dead_step _ _ _ _ G D H))).
+  assert (Hb' : tid_bound st' = tid_bound st) by (apply (step_bound _ _ _ _ H); intros; discriminate).
+  set (ok' := match th_cmd th with CShutdown => true | _ => ok end).
+  (* a late thread cannot return nil *)
+  assert (Hlate_ok : ok' && mem_tid t (t_late m) = false).
+  { destruct (mem_tid t (t_late m)) eqn:El; [|apply andb_false_r].
+    destruct (Hlate t El) as [_ Hth]. destruct (Hth th Hin Hid) as [Hfail Hns].
+    unfold ok'. destruct Hfail as [Hfail|Hfail]; rewrite Hfail in Hpc; [discriminate|]. inv Hpc.
+    destruct (th_cmd th); try reflexivity. congruence. }
+  cbn [mon_run]. unfold tmon_step. fold ok'. rewrite Hlate_ok.
+  destruct (is_terminate (th_cmd th)) eqn:Et.
+  - assert (th_cmd th = CTerminate) as Hc by (destruct (th_cmd th); try discriminate; reflexivity).
+    assert (ok' = ok) as Hok by (unfold ok'; rewrite Hc; reflexivity).
+    destruct (Hall th Hin Hc) as (b & Hb). rewrite Hid in Hb. rewrite Hb.
+    eexists. split; [reflexivity|].
+    assert (Hdone_t : ok' = true -> dead st /\ (b = false -> arch_file st = None)).
+    { intro E. rewrite Hok in E. rewrite E in Hpc. apply (Hdone t b Hb th Hin Hid Hpc). }
+    constructor; cbn.
+    + exact G'.
+    + rewrite Hact, Hkeys. reflexivity.
+    + intro Hm. apply Hdead'. apply orb_prop in Hm. destruct Hm as [Hm|Hm]; [apply Hterm; exact Hm|apply Hdone_t; exact Hm].
+    + intros Hm Hu. apply orb_false_elim in Hu. destruct Hu as [Hu1 Hu2].
+      destruct (t_term m) eqn:Etm.
+      * destruct (Harch eq_refl Hu1) as [Ha Hn].
+        destruct (arch_stable _ _ _ _ G (Hterm eq_refl) Hn Ha H) as (A1 & A2 & _). auto.
+      * cbn in Hm. rewrite Hm in Hu2. cbn in Hu2. subst b. destruct (Hdone_t Hm) as [D Ha].
+        destruct (arch_stable _ _ _ _ G D (no_reset_active _ (Hclean t Hb)) (Ha eq_refl) H) as (A1 & A2 & _). auto.
+    + intros t0 Hl. destruct (Hlate t0 Hl) as [Hm Hth]. split; [rewrite Hm; reflexivity|].
+      intros x Hx Hxid. apply Hth; [apply Hsub; exact Hx|exact Hxid].
+    + intros t0 Hl. rewrite Hb'. apply Hlb. exact Hl.
+    + intros t0 b0 Hf0. apply flag_of_remove in Hf0. destruct Hf0 as [Hne Hf0].
+      destruct (Htr t0 b0 Hf0) as (x & Hx & Hxid & Hxc). exists x. repeat split; auto. apply Hkeep; congruence.
+    + intros x Hx Hxc. rewrite Hths in Hx. apply in_remove_thread in Hx. destruct Hx as [Hx Hne].
+      destruct (Hall x Hx Hxc) as (b0 & Hb0). exists b0. apply flag_of_remove_other; assumption.
+    + intros t0 b0 Hf0 x Hx Hxid Hxpc. apply flag_of_remove in Hf0. destruct Hf0 as [Hne Hf0].
+      destruct (Hdone t0 b0 Hf0 x (Hsub x Hx) Hxid Hxpc) as [D Ha]. split; [apply Hdead'; exact D|].
+      intro E. subst b0.
+      destruct (arch_stable _ _ _ _ G D (no_reset_active _ (Hclean t0 Hf0)) (Ha eq_refl) H) as (X & _). exact X.
+    + intros t0 Hf0 x Hx. apply flag_of_remove in Hf0. destruct Hf0 as [Hne Hf0]. apply (Hclean t0 Hf0). apply Hsub. exact Hx.
+  - eexists. split; [reflexivity|].
+    assert (Hnt : forall b0, flag_of t (t_terms m) <> Some b0).
+    { intros b0 Hb0. destruct (Htr t b0 Hb0) as (x & Hx & Hxid & Hxc).
+      assert (x = th) by (apply (nodup_ids_unique (threads st)); [apply (g_nodup _ G)|exact Hx|exact Hin|congruence]).
+      subst x. rewrite Hxc in Et. discriminate. }
+    constructor; cbn.
+    + exact G'.
+    + rewrite Hact, Hkeys. reflexivity.
+    + intro Hm. apply Hdead'. apply Hterm. exact Hm.
+    + intros Hm Hu. destruct (Harch Hm Hu) as [Ha Hn].
+      destruct (arch_stable _ _ _ _ G (Hterm Hm) Hn Ha H) as (A1 & A2 & _). auto.
+    + intros t0 Hl. destruct (Hlate t0 Hl) as [Hm Hth]. split; [exact Hm|].
+      intros x Hx Hxid. apply Hth; [apply Hsub; exact Hx|exact Hxid].
+    + intros t0 Hl. rewrite Hb'. apply Hlb. exact Hl.
+    + intros t0 b0 Hf0. destruct (Htr t0 b0 Hf0) as (x & Hx & Hxid & Hxc). exists x. repeat split; auto.
+      apply Hkeep; [exact Hx|]. intro E. eapply Hnt. rewrite <- E, Hxid. exact Hf0.
+    + intros x Hx Hxc. apply Hall; [apply Hsub; exact Hx|exact Hxc].
+    + intros t0 b0 Hf0 x Hx Hxid Hxpc.
+      destruct (Hdone t0 b0 Hf0 x (Hsub x Hx) Hxid Hxpc) as [D Ha]. split; [apply Hdead'; exact D|].
+      intro E. subst b0.
+      destruct (arch_stable _ _ _ _ G D (no_reset_active _ (Hclean t0 Hf0)) (Ha eq_refl) H) as (X & _). exact X.
+    + intros t0 Hf0 x Hx. apply (Hclean t0 Hf0). apply Hsub. exact Hx.
+Qed.
+
+Lemma trel_step : forall m st a st' evs,
+  trel m st -> step st a = Some (st', evs) ->
+  exists m', mon_run (tmon_step false) m evs = Some m' /\ trel m' st'.
+Proof.
+  intros m st a st' evs R H.
+  destruct a; try (exists m; eapply trel_step_other; try eassumption; intros; discriminate).
+  - eapply trel_step_call; eassumption.
+  - eapply trel_step_return; eassumption.
+Qed.
+
+(* every trace of the machine is accepted by the lenient terminate monitor *)
+Theorem terminate_monitor_accepts : forall md manual st tr,
+  reach (init_state md manual) st tr -> check_terminate false tr = true.
+Proof.
+  intros md manual st tr H. unfold check_terminate.
+  eapply (simulation_accepts tmon (tmon_step false) trel); [apply trel_init|apply trel_step|exact H].
+Qed.
+
+(* ------------------------------------------------------------------ *)
+(* strict = lenient outside the known class *)
+
+Definition reset_overlapped_terminate (tr : list event) : bool :=
+  match mon_run (tmon_step false) tmon_init tr with
+  | Some m => t_arch_unknown m
+  | None => false
+  end.
+
+Lemma tmon_unknown_mono : forall strict m e m',
+  tmon_step strict m e = Some m' -> t_arch_unknown m = true -> t_arch_unknown m' = true.
+Proof.
+  intros strict m e m' H Hu. unfold tmon_step in H.
+  destruct e; crunch; cbn; try assumption; try (rewrite Hu; reflexivity).
+Qed.
+
+Lemma tmon_strict_step : forall m e m',
+  tmon_step false m e = Some m' -> t_arch_unknown m' = false -> tmon_step true m e = Some m'.
+Proof.
+  intros m e m' H Hu.
+  assert (t_arch_unknown m = false) as Hu0.
+  { destruct (t_arch_unknown m) eqn:E; [|reflexivity]. rewrite (tmon_unknown_mono _ _ _ _ H E) in Hu. discriminate. }
+  unfold tmon_step in *. destruct e; try exact H.
+  destruct clean; [|exact H]. destruct arch; [|exact H].
+  cbn in *. rewrite Hu0 in *. cbn in *. destruct (t_term m); cbn in *; [discriminate|exact H].
+Qed.
+
+Lemma tmon_strict_run : forall tr m m',
+  mon_run (tmon_step false) m tr = Some m' -> t_arch_unknown m' = false ->
+  mon_run (tmon_step true) m tr = Some m'.
+Proof.
+  induction tr as [|e r IH]; intros m m' H Hu; cbn in *; [exact H|].
+  destruct (tmon_step false m e) as [m1|] eqn:E; [|discriminate].
+  assert (t_arch_unknown m1 = false) as Hu1.
+  { destruct (t_arch_unknown m1) eqn:E1; [|reflexivity].
+    clear -H E1 Hu. revert m1 H E1. induction r as [|e' r' IH']; intros m1 H E1; cbn in H.
+    - inv H. congruence.
+    - destruct (tmon_step false m1 e') as [m2|] eqn:E2; [|discriminate].
+      eapply IH'; [exact H|]. eapply tmon_unknown_mono; eassumption. }
+  rewrite (tmon_strict_step _ _ _ E Hu1). apply IH; assumption.
+Qed.
+
+Theorem terminate_strict_accepts : forall md manual st tr,
+  reach (init_state md manual) st tr -> reset_overlapped_terminate tr = false ->
+  check_terminate true tr = true.
+Proof.
+  intros md manual st tr H Hk.
+  pose proof (terminate_monitor_accepts _ _ _ _ H) as Hl. unfold check_terminate, accepts in *.
+  unfold reset_overlapped_terminate in Hk.
+  destruct (mon_run (tmon_step false) tmon_init tr) as [m|] eqn:E; [|discriminate].
+  rewrite (tmon_strict_run _ _ _ E Hk). reflexivity.
 Qed.
